@@ -60,6 +60,7 @@ MUST_VIOLATE = [
     ("dev_LateConnect", "plausible bug"), ("dev_BroadcastSkipsSender", "plausible bug"),
     ("dev_UnicastToAll", "plausible bug"),
     ("dev_PingSkippedWhenActive", "seeded change: active client never pinged"),
+    ("dev_FlushWriteMayTruncate", "seeded change: flush may truncate"),
     ("reach_ParallelHandlers", "reachability"), ("reach_BroadcastToTwo", "reachability"),
     ("reach_UnicastDropped", "reachability"), ("reach_QuiescentDone", "reachability"),
     ("reach_TimeoutLive", "reachability"), ("reach_MsgAfterVanish", "reachability"),
@@ -166,6 +167,11 @@ def validate_batches(ctx, batches, counters, tag="tr"):
                 if b2["why"] == "unexplained" and b2["rec"].get("ev") == "Loop_Timeout":
                     hint = (" [the heartbeat reaped client %s although it is open, answers every ping and neither the loop nor "
                             "its reader stalled: disconnect dispatched for a live client]" % b2["rec"].get("c"))
+                if b2["why"] == "unexplained" and b2["rec"].get("ev") == "C_RxBad":
+                    hint = (" [client %s received a frame that is not, byte for byte, a message handed to the app: truncated / "
+                            "garbled delivery]" % b2["rec"].get("c"))
+                if b2["why"] == "unexplained" and b2["rec"].get("ev") == "End":
+                    hint = " [at the end of the run a message written to a client that read to EOF was never received completely, or a dispatched event never ran]"
                 ctx.violation("%s run %s: %s at record %s %s%s%s" % (
                     origin, run, b2["why"], b2["idx"], json.dumps(b2["rec"]), (" properties " + ",".join(b2["inv"])) if b2["inv"] else "", hint),
                     {"kind": "trace", "origin": origin, "verdict": b2, "events": byrun.get(run, [])})
@@ -178,8 +184,8 @@ def validate_batches(ctx, batches, counters, tag="tr"):
     return {o: tuple(v) for o, v in out.items()}
 
 
-def harness_random(binp, nruns, first, maxc, seed_shift, chatty=0):
-    p = run_bin(binp, ["random", str(nruns), str(first), str(maxc), str(chatty)], timeout=1500,
+def harness_random(binp, nruns, first, maxc, seed_shift, chatty=0, bigpush=0):
+    p = run_bin(binp, ["random", str(nruns), str(first), str(maxc), str(chatty), str(bigpush)], timeout=1500,
                 env={"VERIF_SEED": vlib.seed() + seed_shift})
     if p.returncode != 0:
         raise ToolError("wsasync random failed rc=%s: %s" % (p.returncode, p.stderr[-2000:]))
@@ -502,7 +508,9 @@ def run_inner(tier, replay):
     with cf.ThreadPoolExecutor(max_workers=nproc) as ex:
         # the first runs of every process are "chatty client under a short heartbeat" scenarios
         nchat = 2 if thorough else 1
-        outs = list(ex.map(lambda k: harness_random(binp, per, 1 + k * per, 8, k, nchat), range(nproc)))
+        # ... followed by "burst of 256 KiB unicasts and broadcasts at idle clients, one of them reading late"
+        nbig = 2 if thorough else 1
+        outs = list(ex.map(lambda k: harness_random(binp, per, 1 + k * per, 8, k, nchat, nbig), range(nproc)))
     events = [e for evs, _ in outs for e in evs]
     runs = split_runs(events)
     stats = {}
@@ -525,6 +533,7 @@ def run_inner(tier, replay):
     ctx.add_part("random scenarios", runs=len(runs), accepted_dev_none=acc, attributed_to_InvocationInversion=att, violations=vio,
                  events=stats, pools=sorted({x["workers"] for x in scen}), clients=sorted({x["clients"] for x in scen}),
                  heartbeat_runs=sum(1 for x in scen if x["heartbeat"]), chatty_heartbeat_runs=sum(1 for x in scen if x.get("chatty")),
+                 bigpush_late_reader_runs=sum(1 for x in scen if x.get("bigpush")),
                  internal_app_runs=sum(1 for x in scen if x["internal_app"]),
                  early_shutdown_runs=sum(1 for x in scen if x["early_shutdown"]),
                  poll_us=sorted({x["poll_us"] for x in scen})[:12])
